@@ -21,6 +21,20 @@ CHECKS.update({
          "trusts the reference stack for the 8-leaf Cfg type and the mon.stored hook as the install log; concurrent phases are judged at fenced quiescent points only",
          "DESIGN.md section 4 C05"),
 })
+CHECKS.update({
+ 'C06': ("online callback trace-specification checker over hooked dequeue order and install log; scripted schedules forced with gates at hook points (fenced on observed hook events) plus seeded stress, under the race detector",
+         "A 40-line restatement of the property predicts, from the exact order in which the callback goroutine dequeued events and the install log, the sequence of callback invocations (global first, live handles with token<serial in registration order, old=predecessor, catch-up exactly when a genuine token is behind the last announced version at registration processing); predicted and actual sequences must be equal, and independent monitors check serialization, per-handle monotonic/staleness, no invocation after unregister returned true, announce order = install order. All 6 orders of {ViewVersion, register queued} x {stored, announced} x 4 token kinds x {callback idle, parked}, 8 unregister-vs-announce and 6 unregister-vs-shutdown schedules run at every seed, plus hundreds (quick) to tens of thousands (thorough) of stress histories.",
+         "trusts that cb.dequeue is at the top of the callback loop and mon.stored right after the version store (hook commit); histories whose queue overflowed are judged only on the clauses not assuming callbacks keep up",
+         "DESIGN.md section 4 C06"),
+ 'C07': ("porcupine linearizability check with a nondeterministic model for context-ended reports + state-based abandoned-caller monitor (goroutine dumps), cancellations placed with gates at hook points and inside harness Verify, under the race detector",
+         "Histories of blocking/non-blocking reports and Blank.SetSource calls with the caller's context cancelled before the call, inside Verify for that very report, at the reply point, after return or at a seeded moment; the history must be linearizable against the sequential model (nil => installed and visible unless superseded; error => rejected, view unchanged; context-ended => maybe submitted, open until the end) and after every cancellation a follow-up blocking report from another source must return (otherwise two goroutine dumps showing the monitor parked in a send are the violation).",
+         "trusts the classification of context errors by their text (attempting to submit / awaiting restack), porcupine v1.3.0 and the sequential model",
+         "DESIGN.md section 4 C07"),
+ 'C09': ("delay state-machine monitor over Verify call log, EnableVerification results, install log and the exact global-callback delivery sequence; porcupine model extended with Enable for concurrent enable-vs-update histories; race detector",
+         "All four Delay x Suppress combinations, with no watcher / Blank / fake watchers, are walked through scripted (every edge: update valid/invalid/ill-typed before enable, source error before enable, enable failing, failing again, succeeding, again, then updates and errors after) and seeded random sequences; the state machine says for each step whether Verify must run (and on which receiver), what EnableVerification must return, and whether each global callback must be delivered or withheld; concurrent enable-vs-update histories are checked for linearizability (atomic switch-on).",
+         "'withheld only while X' is judged as not-X => delivered and X => OnNewConfig/source errors withheld; stacking-error callbacks while X holds are recorded, not judged",
+         "DESIGN.md section 4 C09"),
+})
 NOT_YET = "check not yet built in this session (planned in DESIGN.md section 4; the technique applies)"
 
 def main():
